@@ -119,6 +119,8 @@ func sshHandler(w *workerCtx, line []byte) (any, error) {
 	for _, d := range []string{mod, outside, drop} {
 		os.MkdirAll(d, 0o755)
 	}
+	// a configuration file a peer might name in its command line (--gokr.config=OUTSIDE/evil.toml)
+	os.WriteFile(filepath.Join(outside, "evil.toml"), []byte("[[listener]]\nrsyncd = \"127.0.0.1:0\"\n[[module]]\nname = \"evil\"\npath = \""+outside+"\"\n"), 0o644)
 	// "." in a command line must not reach other cases' directories: an
 	// admitted client-mode transfer may still be walking it when the next case runs
 	cwd := filepath.Join(w.dir, "ssh-cwd")
